@@ -165,6 +165,12 @@ func (tr *Tr) sliceAssumptions(o *Obligation, extra []*Term) []*Term {
 	for _, e := range extra {
 		mark(e)
 	}
+	hubs := map[string]bool{} // heaps accessed so far ("H64@")
+	for s := range syms {
+		if i := strings.Index(s, "@"); i > 0 {
+			hubs[s[:i+1]] = true
+		}
+	}
 	changed := true
 	for changed {
 		changed = false
@@ -181,12 +187,19 @@ func (tr *Tr) sliceAssumptions(o *Obligation, extra []*Term) []*Term {
 					hit = true
 					break
 				}
+				if strings.HasSuffix(s, "@*") && hubs[strings.TrimSuffix(s, "*")] {
+					hit = true
+					break
+				}
 			}
 			if hit {
 				c.used = true
 				changed = true
 				for s := range c.syms {
 					syms[s] = true
+					if i := strings.Index(s, "@"); i > 0 {
+						hubs[s[:i+1]] = true
+					}
 				}
 				if c.region == nil {
 					mark(c.t)
